@@ -28,6 +28,10 @@ def handle (op : String) (a : Json) : Option R :=
       let sh ← getNatList a "shape"; let sp ← getNatList a "splits"
       if sh.length ≠ sp.length then throw "BadArg:rank"
       pure (jList ((splitShapeOld sh sp).map jTile))
+  | "c14.splitShapeU" => some do
+      let sh ← getNatList a "shape"; let sp ← getNatList a "splits"
+      if sh.length ≠ sp.length then throw "BadArg:rank"
+      pure (jList ((splitShapeU sh sp).map jTile))
   | "c14.tileAxis" => some do
       let N ← getNat a "N"; let s ← getNat a "start"; let e ← getNat a "stop"; let p ← getNat a "p"
       if ¬ (s < e ∧ e ≤ N) then throw "BadArg:slice"
@@ -35,6 +39,10 @@ def handle (op : String) (a : Json) : Option R :=
       pure (Json.mkObj [("extent", jNat t.extent), ("src", jNats ((List.range t.extent).map t.src)),
         ("arrStart", jNat t.arrStart), ("arrStop", jNat t.arrStop), ("padLo", jNat t.padLo), ("padHi", jNat t.padHi)])
   | "c14.targetPadding" => some do pure (jNat (targetPadding (← getNat a "m")))
+  | "c14.targetPaddingB" => some do
+      let ms ← getNatList a "m"; let bs ← getNatList a "batch"
+      if ms.length ≠ bs.length then throw "BadArg:rank"
+      pure (jNats (List.zipWith (fun m b => targetPaddingB m (b != 0)) ms bs))
   | "c14.memTable" => some do
       pure (jList (memTable.map (fun c => Json.mkObj [("name", jStr c.name),
         ("base", jNats [c.bRF, c.bRC, c.bCF, c.bCC]), ("fork", jNats [c.fRF, c.fRC, c.fCF, c.fCC])])))
